@@ -20,6 +20,7 @@ type Frame struct {
 	Remote tcpip.LinkAddress // route's remote link address (emit) / source link address (inject)
 	Local  tcpip.LinkAddress
 	NextHop tcpip.Address
+	Refused bool // the link refused the transmission (WritePacket returned an error): the frame never was on the wire
 }
 
 // Clock gives a global event order and relative time for one scenario.
@@ -46,6 +47,14 @@ type Link struct {
 	disp     stack.NetworkDispatcher
 	Clock    *Clock
 	OnEmit   func(l *Link, f Frame)
+	// Refuse, when set, may turn a transmission down: WritePacket then returns its error (as a link with a full
+	// transmit queue does); the tap still sees the frame, marked Refused.
+	Refuse   func(l *Link, f Frame) *tcpip.Error
+	// transmit queue (SetRetain): like protocol/link/channel, the link keeps the header view it was handed BY REFERENCE until
+	// Flush puts the frames on the wire (tap), so a sender that re-uses a header buffer corrupts frames that are still queued
+	qmu    sync.Mutex
+	retain bool
+	held   []heldFrame
 	ID       tcpip.LinkEndpointID
 }
 
@@ -70,6 +79,42 @@ func (l *Link) IsAttached() bool {
 	return l.disp != nil
 }
 
+type heldFrame struct {
+	f    Frame
+	h, p buffer.View
+}
+
+// SetRetain switches the transmit queue on or off (off does not flush).
+func (l *Link) SetRetain(on bool) {
+	l.qmu.Lock()
+	l.retain = on
+	l.qmu.Unlock()
+}
+
+// Held is the number of frames waiting in the transmit queue.
+func (l *Link) Held() int {
+	l.qmu.Lock()
+	defer l.qmu.Unlock()
+	return len(l.held)
+}
+
+// Flush puts the queued frames on the wire in order: their bytes are read NOW, through the retained references.
+func (l *Link) Flush() {
+	l.qmu.Lock()
+	hs := l.held
+	l.held = nil
+	l.qmu.Unlock()
+	for _, x := range hs {
+		b := make([]byte, 0, len(x.h)+len(x.p))
+		b = append(b, x.h...)
+		b = append(b, x.p...)
+		x.f.Bytes = b
+		if l.OnEmit != nil {
+			l.OnEmit(l, x.f)
+		}
+	}
+}
+
 func (l *Link) WritePacket(r *stack.Route, hdr buffer.Prependable, payload buffer.VectorisedView, protocol tcpip.NetworkProtocolNumber) *tcpip.Error {
 	h := hdr.View()
 	p := payload.ToView()
@@ -81,10 +126,23 @@ func (l *Link) WritePacket(r *stack.Route, hdr buffer.Prependable, payload buffe
 	if r != nil {
 		f.Remote, f.Local, f.NextHop = r.RemoteLinkAddress, r.LocalLinkAddress, r.NextHop
 	}
+	l.qmu.Lock()
+	if l.retain {
+		l.held = append(l.held, heldFrame{f: f, h: h, p: p})
+		l.qmu.Unlock()
+		return nil
+	}
+	l.qmu.Unlock()
+	var werr *tcpip.Error
+	if l.Refuse != nil {
+		if werr = l.Refuse(l, f); werr != nil {
+			f.Refused = true
+		}
+	}
 	if l.OnEmit != nil {
 		l.OnEmit(l, f)
 	}
-	return nil
+	return werr
 }
 
 // Inject hands a packet to the stack (runs the whole ingress path on the
